@@ -2,3 +2,5 @@ import FggsProofs.Props.C08
 import FggsProofs.Props.C19
 import FggsProofs.Props.C20
 import FggsProofs.Props.C16
+import FggsProofs.Props.C15
+import FggsProofs.Props.C14
